@@ -129,10 +129,11 @@ def load_catalogue(path=CATALOGUE):
 
 def generate(repo, gendir):
     sites = extract(repo)
-    keys = [(s["file"], s["func"], s["fmt"]) for s in sites]
+    keys = sorted((s["file"], s["func"], s["fmt"]) for s in sites)
     body = ["-- GENERATED by tools/gen_c10.py from /repo; do not edit.",
             "namespace CprocVerif.Gen.ErrorSites", "",
-            "/-- (file, enclosing function, format) of every error/fatal/usage/tokencheck/expect call. -/",
+            "/-- (file, enclosing function, format) of every error/fatal/usage/tokencheck/expect call of the",
+            "compiler proper, sorted. -/",
             "def sites : List (String × String × String) := ["]
     body += ["  " + lean_triple(k) + ("," if i + 1 < len(keys) else "") for i, k in enumerate(keys)]
     body += ["]", "", "end CprocVerif.Gen.ErrorSites", ""]
@@ -144,7 +145,7 @@ def generate(repo, gendir):
         write_if_changed(os.path.join(VERIF, "catalogue", "sites.json"), sj)
 
     cat = load_catalogue()
-    groups = {"withTemplate": [], "unreachable": [], "external": []}
+    rows = []
     seen = set()
     for e in cat.get("entries", []):
         k = tuple(e["site"])
@@ -152,25 +153,30 @@ def generate(repo, gendir):
             raise RuntimeError("catalogue lists site %s twice" % (k,))
         seen.add(k)
         if e.get("templates"):
-            groups["withTemplate"].append(k)
+            rows.append((k, 0))
         elif e.get("unreachable"):
-            groups["unreachable"].append(k)
+            rows.append((k, 1))
         elif e.get("external"):
-            groups["external"].append(k)
+            rows.append((k, 2))
         else:
             raise RuntimeError("catalogue entry %s has neither templates nor unreachable/external" % (k,))
+    rows.sort()
     out = ["-- GENERATED by tools/gen_c10.py from catalogue/c10.json; do not edit.",
-           "namespace CprocVerif.Gen.C10Catalogue", ""]
-    doc = {"withTemplate": "sites with at least one violating template",
-           "unreachable": "internal-error sites that no input can reach (reason in catalogue/c10.json)",
-           "external": "I/O / command-line sites exercised by C17/C19 (not reachable from the input text)"}
-    for g in ("withTemplate", "unreachable", "external"):
-        ks = sorted(groups[g])
-        out.append("/-- %s -/" % doc[g])
-        out.append("def %s : List (String × String × String) := [" % g)
-        out += ["  " + lean_triple(k) + ("," if i + 1 < len(ks) else "") for i, k in enumerate(ks)]
-        out += ["]", ""]
-    out += ["end CprocVerif.Gen.C10Catalogue", ""]
+           "namespace CprocVerif.Gen.C10Catalogue", "",
+           "/-- every entry of catalogue/c10.json, sorted by site key: (site key, class) with class",
+           "0 = has at least one violating template, 1 = unreachable internal-error site (reason in the",
+           "catalogue), 2 = external (I/O, command line, allocation failure: C17/C19) -/",
+           "def entries : List ((String × String × String) × Nat) := ["]
+    out += ["  (%s, %d)%s" % (lean_triple(k), c, "," if i + 1 < len(rows) else "") for i, (k, c) in enumerate(rows)]
+    out += ["]", "",
+            "def ofClass (c : Nat) : List (String × String × String) := (entries.filter (·.2 == c)).map (·.1)",
+            "/-- sites with at least one violating template -/",
+            "def withTemplate := ofClass 0",
+            "/-- internal-error sites that no input can reach -/",
+            "def unreachable := ofClass 1",
+            "/-- sites not reachable from the input text -/",
+            "def external := ofClass 2",
+            "", "end CprocVerif.Gen.C10Catalogue", ""]
     write_if_changed(os.path.join(gendir, "C10Catalogue.lean"), "\n".join(out))
     return ["ErrorSites.lean", "C10Catalogue.lean"]
 
